@@ -25,6 +25,7 @@ fn check<'a>(ctx: &Ctx) -> DecCheck<'a> {
         profile: Profile { max_tokens: ctx.tier.pick(10, 40), small_caps_weight: 128, queries: false, exact_queries: false, modes: &hist::ALL_MODES, sinks: &hist::ALL_SINKS, bom_prefix_weight: 48 },
         fills: vec![0xA5, 0x00, 0xFF],
         mixed_sinks: true,
+        mixed_all: false,
     }
 }
 
